@@ -9,7 +9,8 @@
 // inside the other operand's array (at the cell of designated lane aj); ca / cb = the result IS operand a / b (same pointer
 // or register variable, same stride / index list).  Operand values are always the ones held BEFORE the call.
 //
-// Designation families (Layout.tla DesLevels / DesFamilies) of the binary overloads: level "base" = operands a and b are given
+// Designation families (Layout.tla DesLevels / DesFamilies) of the binary overloads: level "sep" = separate arrays whose
+// address sequences are related as the family says; level "base" = operands a and b are given
 // by the SAME base pointer, each with its own stride / index list (distinct list objects unless ixo), and the two address
 // sequences are related as the family says (eq: identical; h1 / h2: agree in the first / second half of the lanes and differ
 // in the other; one: differ in exactly lane dl; perm: equal as multisets, permuted; any: unrelated); together with an in-place
@@ -20,7 +21,7 @@
 // process-wide thread-count setting is 1 / 5.
 //
 // case line:  <ci> C <row id> <seed> <sa> <sb> <sc> <idxmode a> <idxmode b> <idxmode c> <padmask> <valuemode> <alias> <aj>
-//                  [<level none|base|word> <family> <dl> <ixo 0|1>]
+//                  [<level none|sep|base|word> <family> <dl> <ixo 0|1>]
 //             <ci> P <parcpy|parSetZero> <size> <nthreads> <pad> <seed> [<env 0..3>]
 #include "goldilocks_base_field.hpp"
 #include "vh.hpp"
@@ -236,8 +237,8 @@ struct RunOut
 
 enum Alias { AL_NONE, AL_SC, AL_SA, AL_CA, AL_CB };
 static const char *ALN[] = {"none", "sc", "sa", "ca", "cb"};
-enum DesLevel { DL_NONE, DL_BASE, DL_WORD };
-static const char *DLN[] = {"none", "base", "word"};
+enum DesLevel { DL_NONE, DL_BASE, DL_WORD, DL_SEP };
+static const char *DLN[] = {"none", "base", "word", "sep"};
 enum DesFam { DF_NONE, DF_EQ, DF_H1, DF_H2, DF_ONE, DF_PERM, DF_ANY };
 static const char *DFN[] = {"none", "eq", "h1", "h2", "one", "perm", "any"};
 
@@ -381,7 +382,7 @@ static void setup_input(Operand &X, const uint64_t *val, vh::Rng &garb, uint8_t 
             g8[k] = garb.next();
         X.setreg(g8);
     }
-    if (X.kind == K_INDEX)
+    if (X.kind == K_INDEX && !X.ixo)
     {
         X.ib.make(L, pat ^ 0x5A);
         for (int k = 0; k < L; k++)
@@ -513,7 +514,7 @@ static void do_call(vh::Out &o, const std::vector<std::string> &t)
     int aj = t.size() > 13 ? atoi(t[13].c_str()) : 0;
     DesLevel dlv = DL_NONE;
     DesFam des = DF_NONE;
-    for (int i = 0; i < 3; i++)
+    for (int i = 0; i < 4; i++)
         if (t.size() > 14 && t[14] == DLN[i])
             dlv = (DesLevel)i;
     for (int i = 0; i < 7; i++)
@@ -551,7 +552,7 @@ static void do_call(vh::Out &o, const std::vector<std::string> &t)
             v.push_back(X.addr(k));
         return v;
     };
-    if (dlv == DL_BASE)
+    if (dlv == DL_BASE || dlv == DL_SEP)
     {
         if (!ismem(x.A) || !ismem(x.B) || !(al == AL_NONE || al == AL_CA || al == AL_CB))
             misfit("(both operands must be arrays)");
@@ -644,14 +645,18 @@ static void do_call(vh::Out &o, const std::vector<std::string> &t)
         fprintf(stderr, "alias mode %s does not fit row %s\n", ALN[al], row.id);
         _exit(2);
     }
-    if (dlv == DL_BASE)
+    if (dlv == DL_BASE || dlv == DL_SEP)
     {
         // owner of the array: operand a, or the operand that IS the result (in place); the other one shares its base pointer
+        // (level sep: it has an array of its own and only the address sequences - or even the index-list object - are related)
         Operand &S = al == AL_CB ? x.A : x.B;
         Operand &O = al == AL_CB ? x.B : x.A;
-        S.base = &O;
-        S.pad = 0;
-        (O.same ? *O.same : O).minext = S.extent();
+        if (dlv == DL_BASE)
+        {
+            S.base = &O;
+            S.pad = 0;
+            (O.same ? *O.same : O).minext = S.extent();
+        }
         if (ixo)
         {
             if (S.kind != K_INDEX || O.kind != K_INDEX || S.idx != O.idx)
@@ -669,24 +674,15 @@ static void do_call(vh::Out &o, const std::vector<std::string> &t)
     }
     if (dlv == DL_WORD)
     {
-        std::vector<uint64_t> ref, rel;
-        if (is_scalar(x.B) || (!is_scalar(x.A) && (seed & 1)))
-        {
-            // b is the reference (all lanes of a broadcast b hold one word), a is shaped after it
-            ref.assign(vb, vb + L);
-            if (is_scalar(x.B))
-                std::fill(ref.begin(), ref.end(), vb[0]);
-            rel = related(rs, des, ref, dl, true);
-            std::copy(rel.begin(), rel.end(), va);
-        }
-        else
-        {
-            ref.assign(va, va + L);
-            if (is_scalar(x.A))
-                std::fill(ref.begin(), ref.end(), va[0]);
-            rel = related(rs, des, ref, dl, true);
-            std::copy(rel.begin(), rel.end(), vb);
-        }
+        // one operand is the reference (a broadcast operand always: all its lanes hold one word), the other is shaped after it
+        bool bref = is_scalar(x.B) || (!is_scalar(x.A) && (seed & 1));
+        uint64_t *vr = bref ? vb : va, *vs = bref ? va : vb;
+        if (is_scalar(bref ? x.B : x.A))
+            std::fill(vr, vr + L, vr[0]);
+        else if (des == DF_PERM && std::count(vr, vr + L, vr[0]) == L)
+            vr[1] = vr[0] + 1; // a permutation that differs needs two different words
+        std::vector<uint64_t> rel = related(rs, des, std::vector<uint64_t>(vr, vr + L), dl, true);
+        std::copy(rel.begin(), rel.end(), vs);
     }
     RunOut r0, r1;
     one_run(row, x, va, vb, seed, 0, al, aj, r0);
